@@ -418,6 +418,21 @@ def matrix_protos():
     for rep in (False, True):
         j += 1
         mk(alpha_tag('Mh', j), [num('Pre', 'u8'), Field('char', 'Side', repeat=rep), num('Post', 'u16')])
+    # round 7: corners the seventh drill showed to be unvisited
+    j = 0
+    for le in (None, 'true'):
+        # u64 match keys in the upper half of the unsigned range (2^63, 2^64-1) next to a small one
+        j += 1
+        mk(alpha_tag('Mq', j), [num('MsgType', 'u64'), Field('match', 'Body', key='MsgType', pairs=[([1], 'Logon'), ([2 ** 63 if le is None else 2 ** 40], 'Logout'), ([2 ** 64 - 1], 'Beat')]), num('Post', 'u16')],
+           subs=[('Logon', [dyn('User'), num('Ival', 'u16')]), ('Logout', [num('Code', 'u8')]), ('Beat', [])],
+           options={'LittleEndian': le} if le else None)
+    # a repeated member whose packet is EMPTY (also inside the first alternative of a match), and a plain member of an empty packet
+    j += 1
+    mk(alpha_tag('Mq', j), [num('Pre', 'u8'), Field('ref', 'Beats', packet='Beat', named=True, repeat=True), Field('ref', 'One', packet='Beat', named=True), num('Post', 'u16')],
+       subs=[('Beat', [])])
+    j += 1
+    mk(alpha_tag('Mq', j), [num('Kind', 'u8'), Field('match', 'Body', key='Kind', pairs=[([1], 'Session'), ([2], 'Beat')]), num('Post', 'u16')],
+       subs=[('Session', [Field('ref', 'Beats', packet='Beat', named=True, repeat=True), num('Seq', 'u32')]), ('Beat', [])], options={'ArrayPrefixLenType': 'u8'})
     return out
 
 
